@@ -289,8 +289,7 @@ def main_check(camp: Campaign, tier: str, seed: int) -> int:
             "counters": {k: v for k, v in sorted(stats.items())
                          if not k.startswith(("fault.", "probe."))},
             "distinct_cover_all": len(cover),
-            "foreign_exception_runs": n_foreign_runs,
-            "foreign_exception_kinds": foreign_kinds,
+            "foreign_exceptions": f"{n_foreign_runs} runs cut short by failures owned by other properties: {foreign_kinds}",
             "known_findings_matched": [s for s, _, _ in known_hits],
             "new_violation_signatures": [s for s, _, _, _ in new_violations],
             "replay_verified": replay_verified,
